@@ -1,11 +1,18 @@
 class SeismicZfpVersion:
     def __init__(self, arg):
         if isinstance(arg, str):
-            version_numbers_tuple = tuple(part for part in arg.replace('rc', '.rc').split("."))
-            self.major = int(version_numbers_tuple[0])
-            self.minor = int(version_numbers_tuple[1])
-            self.patch = int(version_numbers_tuple[2])
-            self.changes_exist = len(version_numbers_tuple) > 3
+            # Release segment is the leading run of (up to three) numeric parts, anything after it
+            # (rcN, .devN, .postN, +local as produced by setuptools_scm) marks a non-release version.
+            version_numbers_tuple = tuple(part for part in arg.replace('rc', '.rc').replace('+', '.+').split("."))
+            release = []
+            for part in version_numbers_tuple[:3]:
+                if not part.isdigit():
+                    break
+                release.append(int(part))
+            if len(release) == 0:
+                raise ValueError(f"Cannot parse version string {arg}")
+            self.major, self.minor, self.patch = (release + [0, 0])[:3]
+            self.changes_exist = len(version_numbers_tuple) > len(release)
         elif isinstance(arg, int):
             self.major = arg//(1024*2048)
             self.minor = (arg - self.major*1024*2048) // 2048
